@@ -300,6 +300,16 @@ func runC05(ctx *core.Ctx) {
 
 	// ------------------------------------------------------------ 4. oracles on the real loader
 	genOracles(ctx)
+
+	// ------------------------------------------------------------ 5. which model branches were reached (c05Stats)
+	ctx.Wait()
+	c05StatsMu.Lock()
+	for k, n := range c05Stats {
+		for i := 0; i < n; i++ {
+			ctx.Count(k)
+		}
+	}
+	c05StatsMu.Unlock()
 }
 
 func genTrackerAndExtend(ctx *core.Ctx) {
